@@ -1,6 +1,280 @@
 /-
-Helper lemmas (TextRoundtrip).
+Helper lemmas (TextRoundtrip): printed values are tokens, special values, header line round trip,
+whitespace tokenisation of the value line, `{:.p}` / `from_str` round trip.
 -/
 import SfsModel.Model.Text
+import SfsModel.Lemmas.Bytes
 namespace Sfs
+
+
+theorem isAsciiWs_false_of_isDigit {c : Char} (h : c.isDigit = true) : isAsciiWs c = false := by
+  have := isDigit_toNat h
+  simp only [isAsciiWs, decide_eq_false_iff_not]
+  rintro (rfl | rfl | rfl | rfl | rfl) <;> simp at this
+
+theorem padDigits_isDigit (n w : Nat) : ∀ c ∈ padDigits n w, c.isDigit = true := by
+  intro c hc
+  simp only [padDigits, List.mem_append, List.mem_replicate] at hc
+  rcases hc with ⟨_, rfl⟩ | hc
+  · rfl
+  · exact toDigits_isDigit n c hc
+
+/-- characters of a printed non-negative number: digits and at most the point. -/
+theorem fmtRatFixed_chars (q : Rat) (p : Nat) : ∀ c ∈ fmtRatFixed q p, c.isDigit = true ∨ c = '.' := by
+  intro c hc
+  unfold fmtRatFixed at hc
+  simp only at hc
+  split at hc
+  · exact .inl (toDigits_isDigit _ c hc)
+  · simp only [List.mem_append, List.mem_cons] at hc
+    rcases hc with hc | rfl | hc
+    · exact .inl (toDigits_isDigit _ c hc)
+    · exact .inr rfl
+    · exact .inl (padDigits_isDigit _ _ c hc)
+
+/-- a printed non-negative number starts with a digit. -/
+theorem fmtRatFixed_head (q : Rat) (p : Nat) : ∃ c t, fmtRatFixed q p = c :: t ∧ c.isDigit = true := by
+  unfold fmtRatFixed
+  simp only
+  split
+  · exact showNat_head _
+  · obtain ⟨c, t, h, hc⟩ := showNat_head
+      ((if 2 * (q.num.natAbs * 10 ^ p % q.den) > q.den then q.num.natAbs * 10 ^ p / q.den + 1
+        else if 2 * (q.num.natAbs * 10 ^ p % q.den) < q.den then q.num.natAbs * 10 ^ p / q.den
+        else if q.num.natAbs * 10 ^ p / q.den % 2 = 1 then q.num.natAbs * 10 ^ p / q.den + 1
+        else q.num.natAbs * 10 ^ p / q.den) / 10 ^ p)
+    unfold showNat at h
+    exact ⟨c, t ++ _, by rw [h]; rfl, hc⟩
+
+theorem fmtFixed_nan (b p : Nat) (h : f64OfBits b = .nan) : fmtFixed b p = "NaN".toList := by
+  simp only [fmtFixed, h]
+
+theorem fmtFixed_inf (b p : Nat) (s : Bool) (h : f64OfBits b = .inf s) :
+    fmtFixed b p = if s then "-inf".toList else "inf".toList := by
+  simp only [fmtFixed, h]
+
+theorem fmtFixed_fin (b p : Nat) (q : Rat) (h : f64OfBits b = .fin q) :
+    fmtFixed b p = (if f64Sign b then ['-'] else []) ++ fmtRatFixed (absRat q) p := by
+  simp only [fmtFixed, h]
+
+theorem parseF64_NaN : parseF64 "NaN".toList = some (2047 * 2 ^ 52 + 2 ^ 51) := by decide +kernel
+theorem parseF64_inf : parseF64 "inf".toList = some (2047 * 2 ^ 52) := by decide +kernel
+theorem parseF64_neg_inf : parseF64 "-inf".toList = some (2 ^ 63 + 2047 * 2 ^ 52) := by decide +kernel
+theorem f64OfBits_qnan : f64OfBits (2047 * 2 ^ 52 + 2 ^ 51) = .nan := by decide +kernel
+theorem f64OfBits_pinf : f64OfBits (2047 * 2 ^ 52) = .inf false := by decide +kernel
+theorem f64OfBits_ninf : f64OfBits (2 ^ 63 + 2047 * 2 ^ 52) = .inf true := by decide +kernel
+
+theorem fmtFixed_tok (b p : Nat) : fmtFixed b p ≠ [] ∧ ∀ c ∈ fmtFixed b p, isAsciiWs c = false := by
+  unfold fmtFixed
+  split
+  · exact ⟨by decide, by decide⟩
+  · split <;> exact ⟨by decide, by decide⟩
+  · rename_i q _
+    obtain ⟨c, t, h, hc⟩ := fmtRatFixed_head (absRat q) p
+    refine ⟨by rw [h]; split <;> simp, ?_⟩
+    intro c hc
+    simp only [List.mem_append] at hc
+    rcases hc with hc | hc
+    · split at hc
+      · simp only [List.mem_singleton] at hc; subst hc; decide
+      · cases hc
+    · rcases fmtRatFixed_chars _ _ c hc with h | rfl
+      · exact isAsciiWs_false_of_isDigit h
+      · decide
+
+
+
+/-! ## joinNats structure -/
+
+theorem joinNats_cons_cons (sep : List Char) (a b : Nat) (rest : List Nat) :
+    joinNats sep (a :: b :: rest) = showNat a ++ sep ++ joinNats sep (b :: rest) := rfl
+
+theorem joinNats_head (sep : List Char) (shape : List Nat) (hne : shape ≠ []) :
+    ∃ c t, joinNats sep shape = c :: t ∧ c.isDigit = true := by
+  cases shape with
+  | nil => exact absurd rfl hne
+  | cons a rest =>
+    obtain ⟨c, t, h, hc⟩ := showNat_head a
+    cases rest with
+    | nil => exact ⟨c, t, by simp [joinNats, h], hc⟩
+    | cons b rest => exact ⟨c, t ++ sep ++ joinNats sep (b :: rest), by simp [joinNats_cons_cons, h], hc⟩
+
+theorem joinNats_last (sep : List Char) (shape : List Nat) (hne : shape ≠ []) :
+    ∃ t c, joinNats sep shape = t ++ [c] ∧ c.isDigit = true := by
+  induction shape with
+  | nil => exact absurd rfl hne
+  | cons a rest ih =>
+    cases rest with
+    | nil => simpa [joinNats] using showNat_last a
+    | cons b rest =>
+      obtain ⟨t, c, h, hc⟩ := ih (by simp)
+      exact ⟨showNat a ++ sep ++ t, c, by simp [joinNats_cons_cons, h], hc⟩
+
+/-! ## splitOnChar -/
+
+theorem splitOnChar_ne_nil (c : Char) (l : List Char) : splitOnChar c l ≠ [] := by
+  cases l with
+  | nil => simp [splitOnChar]
+  | cons x xs =>
+    simp only [splitOnChar]
+    split
+    · simp
+    · split <;> simp
+
+theorem splitOnChar_no_sep (c : Char) (l : List Char) (h : ∀ x ∈ l, x ≠ c) : splitOnChar c l = [l] := by
+  induction l with
+  | nil => rfl
+  | cons x xs ih =>
+    have hx : x ≠ c := h x (by simp)
+    simp only [splitOnChar, ih (fun y hy => h y (by simp [hy])), hx, if_false]
+
+theorem splitOnChar_append_sep (c : Char) (l r : List Char) (h : ∀ x ∈ l, x ≠ c) :
+    splitOnChar c (l ++ c :: r) = l :: splitOnChar c r := by
+  induction l with
+  | nil =>
+    simp only [List.nil_append, splitOnChar]
+    cases hr : splitOnChar c r with
+    | nil => exact absurd hr (splitOnChar_ne_nil c r)
+    | cons cur rest => simp
+  | cons x xs ih =>
+    have hx : x ≠ c := h x (by simp)
+    simp only [List.cons_append, splitOnChar, ih (fun y hy => h y (by simp [hy])), hx, if_false]
+
+theorem showNat_no_slash (n : Nat) : ∀ x ∈ showNat n, x ≠ '/' := by
+  intro x hx hs
+  subst hs
+  have := showNat_isDigit n _ hx
+  simp at this
+
+theorem splitOnChar_joinNats (shape : List Nat) (hne : shape ≠ []) :
+    splitOnChar '/' (joinNats ['/'] shape) = shape.map showNat := by
+  induction shape with
+  | nil => exact absurd rfl hne
+  | cons a rest ih =>
+    cases rest with
+    | nil => simpa [joinNats] using splitOnChar_no_sep '/' (showNat a) (showNat_no_slash a)
+    | cons b rest =>
+      rw [joinNats_cons_cons, List.append_assoc, List.singleton_append,
+        splitOnChar_append_sep _ _ _ (showNat_no_slash a), ih (by simp)]
+      rfl
+
+/-! ## parseUsize -/
+
+theorem parseUsize_of_digits (s : List Char) (hne : s ≠ []) (hall : ∀ c ∈ s, c.isDigit = true)
+    (hv : digitsVal s < 2 ^ 64) : parseUsize s = some (digitsVal s) := by
+  have hall' : s.all Char.isDigit = true := by simpa [List.all_eq_true] using hall
+  have hne' : s.isEmpty = false := by cases s with | nil => exact absurd rfl hne | cons _ _ => rfl
+  unfold parseUsize
+  split
+  · have := hall '+' (by simp)
+    simp at this
+  · simp only [hne', hall', hv, Bool.not_true, Bool.or_self, Bool.false_eq_true, if_false, if_true]
+
+theorem parseUsize_showNat (v : Nat) (hv : v < 2 ^ 64) : parseUsize (showNat v) = some v := by
+  have := parseUsize_of_digits (showNat v) (showNat_ne_nil v) (showNat_isDigit v) (by rwa [digitsVal_showNat])
+  rwa [digitsVal_showNat] at this
+
+theorem mapM_parseUsize_showNat (shape : List Nat) (hb : ∀ v ∈ shape, v < 2 ^ 64) :
+    (shape.map showNat).mapM parseUsize = some shape := by
+  induction shape with
+  | nil => rfl
+  | cons a rest ih =>
+    simp only [List.map_cons, List.mapM_cons, parseUsize_showNat a (hb a (by simp)),
+      ih (fun v hv => hb v (by simp [hv]))]
+    rfl
+
+/-! ## trimming -/
+
+theorem trimStart_header (c : Char) (t : List Char) (hc : c.isDigit = true) :
+    trimStartNonDigit ("#SHAPE=<".toList ++ c :: t) = c :: t := by
+  simp [trimStartNonDigit, List.dropWhile, hc]
+
+theorem trimEnd_gt (t : List Char) (c : Char) (hc : c.isDigit = true) :
+    trimEndNonDigit (t ++ [c] ++ ['>']) = t ++ [c] := by
+  simp [trimEndNonDigit, List.dropWhile, hc]
+
+theorem parseTextHeader_textHeader (shape : List Nat) (hne : shape ≠ []) (hb : ∀ v ∈ shape, v < 2 ^ 64) :
+    parseTextHeader (textHeader shape) = some shape := by
+  unfold parseTextHeader textHeader
+  obtain ⟨c, t, h, hc⟩ := joinNats_head ['/'] shape hne
+  obtain ⟨t', c', h', hc'⟩ := joinNats_last ['/'] shape hne
+  have h1 : trimStartNonDigit ("#SHAPE=<".toList ++ joinNats ['/'] shape ++ ['>']) = joinNats ['/'] shape ++ ['>'] := by
+    rw [h, List.append_assoc, List.cons_append, trimStart_header c _ hc]
+  rw [h1, h', trimEnd_gt t' c' hc', ← h', splitOnChar_joinNats shape hne]
+  exact mapM_parseUsize_showNat shape hb
+
+
+
+/-- a token: non-empty, no ASCII whitespace. -/
+def IsTok (t : List Char) : Prop := t ≠ [] ∧ ∀ c ∈ t, isAsciiWs c = false
+
+theorem splitWs_ws_cons (c : Char) (cs : List Char) (h : isAsciiWs c = true) : splitWs (c :: cs) = splitWs cs := by
+  simp [splitWs, h]
+
+/-- a token followed by end of input or whitespace is split off whole. -/
+theorem splitWs_tok_append (tok rest : List Char) (ht : IsTok tok)
+    (hr : ∀ d, rest.head? = some d → isAsciiWs d = true) :
+    splitWs (tok ++ rest) = tok :: splitWs rest := by
+  obtain ⟨hne, hws⟩ := ht
+  induction tok with
+  | nil => exact absurd rfl hne
+  | cons c t ih =>
+    have hc : isAsciiWs c = false := hws c (by simp)
+    cases t with
+    | nil =>
+      cases rest with
+      | nil => simp [splitWs, hc]
+      | cons d r =>
+        have hd := hr d rfl
+        simp only [List.cons_append, List.nil_append, splitWs, hc, hd, if_true, Bool.false_eq_true, if_false]
+        cases splitWs r <;> rfl
+    | cons c' t' =>
+      have ih' := ih (by simp) (fun x hx => hws x (by simp [hx]))
+      have hc' : isAsciiWs c' = false := hws c' (by simp)
+      rw [List.cons_append, splitWs]
+      simp only [hc, Bool.false_eq_true, if_false, ih']
+      simp [hc']
+
+/-- tokens each preceded by a space and the whole terminated by a newline. -/
+theorem splitWs_sep_toks (toks : List (List Char)) (h : ∀ t ∈ toks, IsTok t) :
+    splitWs (toks.flatMap (fun t => ' ' :: t) ++ ['\n']) = toks := by
+  induction toks with
+  | nil => decide
+  | cons t ts ih =>
+    have ih' := ih (fun x hx => h x (by simp [hx]))
+    simp only [List.flatMap_cons, List.cons_append, List.append_assoc]
+    rw [splitWs_ws_cons _ _ (by decide), splitWs_tok_append t _ (h t (by simp)), ih']
+    intro d hd
+    cases ts with
+    | nil => simp at hd; subst hd; decide
+    | cons t2 ts2 => simp at hd; subst hd; decide
+
+theorem foldl_sep_eq {α} (f : α → List Char) (acc : List Char) (rest : List α) :
+    rest.foldl (fun s x => s ++ ' ' :: f x) acc = acc ++ rest.flatMap (fun x => ' ' :: f x) := by
+  induction rest generalizing acc with
+  | nil => simp
+  | cons x xs ih => simp [ih]
+
+/-- the value line: tokens joined by single spaces, then the newline, split back into the tokens. -/
+theorem splitWs_value_line {α} (f : α → List Char) (hf : ∀ x, IsTok (f x)) (b : α) (rest : List α) :
+    splitWs (rest.foldl (fun s x => s ++ ' ' :: f x) (f b) ++ ['\n']) = (b :: rest).map f := by
+  simp only [foldl_sep_eq, List.append_assoc, List.map_cons]
+  have h2 : rest.flatMap (fun x => ' ' :: f x) = (rest.map f).flatMap (fun t => ' ' :: t) := by
+    simp [List.flatMap_map]
+  rw [splitWs_tok_append _ _ (hf b), h2, splitWs_sep_toks]
+  · intro t ht
+    simp only [List.mem_map] at ht
+    obtain ⟨x, _, rfl⟩ := ht
+    exact hf x
+  · intro d hd
+    cases rest with
+    | nil => simp at hd; subst hd; decide
+    | cons t2 ts2 => simp at hd; subst hd; decide
+
+theorem writeText_tokens (shape bits : List Nat) (p : Nat) (hf : ∀ b, IsTok (fmtFixed b p)) :
+    ∃ line : List Char, writeText shape bits p = textHeader shape ++ ['\n'] ++ line ++ ['\n'] ∧
+      splitWs (line ++ ['\n']) = bits.map (fun b => fmtFixed b p) := by
+  cases bits with
+  | nil => exact ⟨[], rfl, by simp [splitWs, isAsciiWs]⟩
+  | cons b rest => exact ⟨_, rfl, splitWs_value_line (fun b => fmtFixed b p) hf b rest⟩
 end Sfs
